@@ -1039,11 +1039,83 @@ class DeclGen(Gen):
         tree = T("Sfc", networks=[T("Network", initial_step=T("Step", name=low(init), action_associations=[]), elements=elements)])
         return lx, tree
 
+    def global_block(self):
+        """VAR_GLOBAL [CONSTANT | RETAIN]  name, name : INT | BOOL [:= value] ;  END_VAR"""
+        r = self.rng
+        q = r.choice([None, "CONSTANT", "RETAIN"])
+        lx = [kw("VAR_GLOBAL")] + ([kw(q)] if q else []) + [N]
+        trees = []
+        for _ in range(r.choice([1, 2])):
+            names = [self.name("g") for _ in range(r.choice([1, 1, 2]))]
+            typ = r.choice(["INT", "BOOL", "DINT"])
+            for i, n in enumerate(names):
+                lx += ([sym(",")] if i else []) + [ident(n)]
+            lx += [sym(":"), kw(typ)]
+            val = None
+            if r.random() < 0.6 or q == "CONSTANT":
+                vl, val = self.literal_for(typ)
+                lx += [sym(":=")] + vl
+            lx += [sym(";"), N]
+            trees += [T("VarDecl", identifier=V("Symbol", low(n)), var_type="global", qualifier=self.QUAL[q], initializer=simple_init(typ, val)) for n in names]
+        return lx + [kw("END_VAR"), N], trees
+
+    def configuration(self):
+        """CONFIGURATION name [globals] RESOURCE name ON name [globals] tasks programs END_RESOURCE END_CONFIGURATION"""
+        r = self.rng
+        cn = self.name("Cfg")
+        lx = [kw("CONFIGURATION"), ident(cn), N]
+        cglob = []
+        if r.random() < 0.5:
+            l, cglob = self.global_block()
+            lx += l
+            self.known.add("render-configuration-globals")
+        rn, on = self.name("Res"), self.name("Plc")
+        lx += [kw("RESOURCE"), ident(rn), kw("ON"), ident(on), N]
+        rglob = []
+        if r.random() < 0.3:
+            l, rglob = self.global_block()
+            lx += l
+            self.known.add("render-configuration-globals")
+        tasks, ttrees = [], []
+        for _ in range(r.choice([0, 1, 2, 3])):
+            t = self.name("Tk")
+            tasks.append(t)
+            lx += [kw("TASK"), ident(t), sym("(")]
+            interval = None
+            if r.random() < 0.6:
+                ms = r.choice([1, 20, 100, 999, 1000, 1500, 60000])
+                txt = r.choice(["T#%dms" % ms, "TIME#%dms" % ms, "t#%dms" % ms])
+                lx += [lit("INTERVAL"), sym(":="), lit(txt), sym(",")]
+                interval = T("DurationLiteral", interval=T("Duration", seconds=str(ms // 1000), nanoseconds=str((ms % 1000) * 1000000)))
+                self.known.add("render-task-interval-keyword")
+            pr = r.randrange(0, 65536) if r.random() < 0.2 else r.randrange(10)
+            lx += [lit("PRIORITY"), sym(":="), lit(str(pr)), sym(")"), sym(";"), N]
+            ttrees.append(T("TaskConfiguration", name=low(t), priority=str(pr), interval=interval))
+        ptrees = []
+        np_ = r.choice([1, 1, 2, 3])
+        for j in range(np_):
+            pn, ty = self.name("inst"), self.name("Prg")
+            st = r.choice([None, None, None, "RETAIN", "NON_RETAIN"])
+            lx += [kw("PROGRAM")] + ([kw(st)] if st else []) + [ident(pn)]
+            task = None
+            if tasks and r.random() < 0.7:
+                task = r.choice(tasks)
+                lx += [kw("WITH"), ident(task)]
+            lx += [sym(":"), ident(ty)] + ([G] if j == np_ - 1 else []) + [sym(";"), N]      # the last ';' follows directly
+            ptrees.append(T("ProgramConfiguration", name=low(pn), storage={None: None, "RETAIN": "retain", "NON_RETAIN": "nonretain"}[st],
+                            task_name=low(task) if task else None, type_name=low(ty), fb_tasks=[], sinks=[], sources=[]))
+        lx += [kw("END_RESOURCE"), N, kw("END_CONFIGURATION"), N]
+        res = T("ResourceDeclaration", name=low(rn), resource=low(on), global_vars=rglob, tasks=ttrees, programs=ptrees)
+        return lx, [T("ConfigurationDeclaration", name=low(cn), global_var=cglob, resource_decl=[res], fb_inits=[], located_var_inits=[])]
+
     def library(self, n=None):
         lx = []
         trees = []
         for _ in range(n or self.rng.choice([1, 1, 2, 3, 4])):
-            if self.rng.random() < 0.3:
+            k = self.rng.random()
+            if k < 0.12:
+                l, t = self.configuration()
+            elif k < 0.38:
                 l, t = self.type_block()
             else:
                 l, t = self.pou()
